@@ -26,6 +26,7 @@ RULE = (
     "sequential result; (3) all permutations of <= 5 iterations; (4) compiled kernel under set_num_threads(1..max) x chunk sizes {0,1,2,5} x "
     "5 repetitions bit-identical to thread count 1, to py_func and to a numpy reference. Non-trivial = shapes with >= 2 iterations"
 )
+SCALE_LANE = 'one compiled case of ordinary size per kernel (16 387 spectra / 50 001 groups / 130 channels x 1031 samples) at 2, 3, 5, 7, 11, 16 threads x 3 chunk sizes x 2 repetitions, incl. a bandpass whose sum is exact only in sequential order'
 ASSUMPTIONS = [
     "numba compiles the Python definition with array elements as the only state shared between prange iterations (scalars assigned in the loop body are private)",
     "native OpenMP/TBB schedules cannot be controlled from Python: they are enumerated on the model and only sampled on the compiled code (step 4 validates the model against the machine code)",
